@@ -28,9 +28,12 @@ def scaled_cfg(cfg, lam, c):
     return d
 
 
-def predict(cfg, lam, c, tol=1e-6, include_thresholded=False):
-    """violations of the scaling law on one input: list of dicts"""
-    q0, m0 = build(cfg, shear=True)
+def predict(cfg, lam, c, tol=1e-6, include_thresholded=False, q0=None):
+    """violations of the scaling law on one input: list of dicts (q0: the original object, possibly reached through a history)"""
+    if q0 is None:
+        q0, m0 = build(cfg, shear=True)
+    elif cfg.get('order') == 'r3' and not hasattr(q0, 'iota2'):
+        q0.calculate_shear()
     q1, m1 = build(scaled_cfg(cfg, lam, c), shear=True)
     a0, a1 = flat_attrs(q0), flat_attrs(q1)
     out, checked = [], 0
@@ -94,7 +97,7 @@ def main():
             res['max_rel_err'] = max(res['max_rel_err'], tv['max_rel_err'])
             res['mismatches'] += tv['mismatches']
             lam, c = round_sig(float(np.exp(rnd(rng, np.log(0.2), np.log(5)))), 3), round_sig(float(np.exp(rnd(rng, np.log(0.2), np.log(5)))), 3)
-            v, n = predict(cfg, lam, c)
+            v, n = predict(cfg, lam, c, q0=q)
             res['predictions_checked'] += n
             res['violations'] += v
             if len(res['samples']) < 3:
@@ -113,7 +116,7 @@ def main():
             note(cfg, q)
             tried += 1
             for lam, c in ((2.0, 1.0), (1.0, 3.0)):
-                v, n = predict(cfg, lam, c, include_thresholded='r_singularity' in hint)
+                v, n = predict(cfg, lam, c, include_thresholded='r_singularity' in hint, q0=q)
                 res['predictions_checked'] += n
                 if v:
                     res['violations'] += v
